@@ -523,7 +523,8 @@ pub fn gen_file_history(rng: &mut Rng, _avoid: &Avoid) -> History {
     for _ in 0..nprog {
         let sc = match rng.below(20) {
             0..=3 => gen_parity_program(rng, &mut files, &mut exists),
-            4..=8 => gen_roundtrip_program(rng, &mut exists),
+            4..=7 => gen_roundtrip_program(rng, &mut exists),
+            8 => gen_follow_program(rng, &mut exists),
             _ => gen_file_program(rng, &mut exists),
         };
         programs.push(sc);
@@ -777,6 +778,118 @@ fn gen_roundtrip_program(rng: &mut Rng, exists: &mut BTreeSet<String>) -> Scenar
         ],
         using: None,
     }));
+    main.push(ids.st(StmtKind::Close(vec![])));
+    main.push(ids.st(StmtKind::End));
+    if handler {
+        handler_tail(&mut ids, &mut main);
+    }
+    Scenario {
+        main,
+        procs: vec![],
+        stdin: vec![],
+    }
+}
+
+/// A reader that has reached the end of a file while an APPEND writer on another handle
+/// goes on adding lines: "EOF(n) is true exactly when nothing is left", so the reader
+/// sees every new line, and is at the end again after it has read them.
+fn gen_follow_program(rng: &mut Rng, exists: &mut BTreeSet<String>) -> Scenario {
+    let mut ids = Ids(0);
+    let mut main = vec![];
+    let handler = rng.chance(1, 2);
+    if handler {
+        main.push(ids.st(StmtKind::OnErrorGoto("H1".into())));
+    }
+    let name = rng.pick(&NAMES).to_string();
+    let (hw, hr) = *rng.pick(&[(1, 2), (2, 1), (1, 3), (3, 2)]);
+    // the writer is opened first when the file does not exist yet
+    let writer_first = !exists.contains(&name) || rng.chance(1, 2);
+    let open_w = StmtKind::Open {
+        name: name.clone(),
+        mode: Mode::Append,
+        handle: hw,
+        len: None,
+    };
+    let open_r = StmtKind::Open {
+        name: name.clone(),
+        mode: Mode::Input,
+        handle: hr,
+        len: None,
+    };
+    if writer_first {
+        main.push(ids.st(open_w));
+        main.push(ids.st(open_r));
+    } else {
+        main.push(ids.st(open_r));
+        main.push(ids.st(open_w));
+    }
+    exists.insert(name);
+    let eof_trace = |ids: &mut Ids| {
+        ids.st(StmtKind::Print {
+            dev: Dev::Screen,
+            items: vec![
+                PItem::E(Expr::Str("EOF".into())),
+                PItem::Semi,
+                PItem::E(Expr::Eof(hr)),
+            ],
+            using: None,
+        })
+    };
+    for round in 0..(1 + rng.below(3)) {
+        // drain what is there (a read too many raises 62 under the handler)
+        let body = vec![
+            ids.st(StmtKind::LineInputFile {
+                handle: hr,
+                var: "S1$".into(),
+            }),
+            trace_vars(&mut ids),
+        ];
+        let id = {
+            ids.0 += 1;
+            ids.0
+        };
+        main.push(Stmt {
+            id,
+            kind: StmtKind::Do {
+                top: true,
+                until: true,
+                cond: Expr::Eof(hr),
+                body,
+            },
+        });
+        main.push(eof_trace(&mut ids));
+        if handler && rng.chance(1, 4) {
+            main.push(ids.st(StmtKind::LineInputFile {
+                handle: hr,
+                var: "S2$".into(),
+            }));
+            main.push(trace_vars(&mut ids));
+        }
+        // the writer adds one or two lines, the last one sometimes unfinished
+        for k in 0..(1 + rng.below(2)) {
+            let mut items = vec![PItem::E(Expr::Str(format!("r{}k{}", round, k)))];
+            if rng.chance(1, 2) {
+                items.push(PItem::Semi);
+                items.push(PItem::E(Expr::Int(rng.range(-99, 99) as i32)));
+            }
+            if rng.chance(1, 5) {
+                items.push(PItem::Semi);
+            }
+            main.push(ids.st(StmtKind::Print {
+                dev: Dev::File(hw),
+                items,
+                using: None,
+            }));
+        }
+        main.push(eof_trace(&mut ids));
+    }
+    // and the rest
+    main.push(ids.st(StmtKind::LineInputFile {
+        handle: hr,
+        var: "S3$".into(),
+    }));
+    main.push(trace_vars(&mut ids));
+    main.push(eof_trace(&mut ids));
     main.push(ids.st(StmtKind::Close(vec![])));
     main.push(ids.st(StmtKind::End));
     if handler {
